@@ -33,6 +33,7 @@ structure Quirks where
   bitposPartialEnd : Bool      -- D62 BITPOS with a BIT range ending inside a byte looks past the end
   bitopEmptyCreates : Bool     -- D61 BITOP whose result is empty stores an empty string
   lcsRunes : Bool              -- D68 LCS compares UTF-8 runes (invalid bytes all equal U+FFFD), not bytes
+  sintercardLimitGreedy : Bool -- D88 a trailing `LIMIT <int>` is the option even where numkeys makes the two words keys
   deriving Repr, DecidableEq
 
 def Quirks.none : Quirks :=
@@ -43,7 +44,8 @@ def Quirks.none : Quirks :=
     helloAnyVersion := false, resp2Scalars := false, dirtyIncomplete := false,
     bitcountClamp := false, bitcountEmptyCrash := false, bfSignedOverflow64 := false,
     bfSetOverflowUsesSum := false, unlinkKeepsObject := false,
-    getexNoOptPersists := false, bitposPartialEnd := false, bitopEmptyCreates := false, lcsRunes := false }
+    getexNoOptPersists := false, bitposPartialEnd := false, bitopEmptyCreates := false, lcsRunes := false,
+    sintercardLimitGreedy := false }
 
 inductive Val where
   | str (b : Bytes)
